@@ -368,7 +368,67 @@ def run_exhaustive(ctx, n):
         ctx.rmtree(base)
 
 
+# ---- thousands of shards, each revisited after thousands of others -------------
+def check_huge(ctx, case):
+    """8192 (or more) shards of two chunks each: all chunks with an even
+    identifier first, then all odd ones, so that every shard is written to
+    again after every other shard has been opened in between.  Compared with
+    the same chunks stored in identifier order."""
+    from neuroglancer_scripts import accessor
+    grid = case["grid"]
+    full = {"grid": grid, "cs": 1, "rem": [0, 0, 0], "bits": case["bits"],
+            "index_enc": "raw", "data_enc": "raw", "seed": case["seed"]}
+    positions = sorted(sc.grid_positions(grid),
+                       key=lambda p: sc.chunk_id(p, grid))
+    order = [p for p in positions if sc.chunk_id(p, grid) % 2 == 0] + \
+        [p for p in positions if sc.chunk_id(p, grid) % 2]
+    base = ctx.tmpdir("c05huge")
+    try:
+        store(os.path.join(base, "ref"), full, positions, "in memory")
+        store(os.path.join(base, "h"), full, order, case["strategy"])
+        a, b = shard_tree(os.path.join(base, "ref")), shard_tree(
+            os.path.join(base, "h"))
+        if a != b:
+            diff = sorted(set(a.items()) ^ set(b.items()))
+            ctx.fail("%d shard files differ between identifier order and "
+                     "even-then-odd order (%d chunks, bits %s, %s), e.g. %s" % (
+                         len({d_[0] for d_ in diff}), len(positions),
+                         case["bits"], case["strategy"], diff[0][0]))
+        acc = accessor.get_accessor_for_url(os.path.join(base, "h"))
+        step = max(1, len(positions) // 400)
+        for p_ in positions[::step] + positions[-3:]:
+            arr, cc = chunk_array(full, p_)
+            got = acc.fetch_chunk(sc.KEY, cc)
+            if bytes(got) != arr.tobytes():
+                ctx.fail("chunk %s reads back as %d bytes that differ from "
+                         "the stored ones (%d shards)" % (
+                             list(p_), len(got), len(a)))
+        return len(a)
+    finally:
+        ctx.rmtree(base)
+
+
+def run_huge(ctx, n):
+    cases = [{"huge": True, "grid": [32, 32, 16], "bits": [0, 13, 1],
+              "strategy": "on disk"},
+             {"huge": True, "grid": [20, 33, 31], "bits": [0, 14, 1],
+              "strategy": "in memory"}]
+    for k, case in enumerate(cases[:max(1, n)]):
+        case = dict(case, seed=ctx.seed + k)
+        try:
+            nshards = check_huge(ctx, case)
+        except AssertionError as exc:
+            if type(exc).__name__ != "Violation":
+                raise
+            ctx.violations.append({"sub": "huge_shards", "case": case,
+                                   "message": str(exc)})
+            return
+        ctx.record(case, True, ["shards%d" % nshards])
+
+
 def replay(ctx, case):
+    if case.get("huge"):
+        return check_huge(ctx, case)
     case = dict(case)
     case.setdefault("two_scales", False)
     check_case(ctx, case)
@@ -380,4 +440,5 @@ SUBS = [
         min_per_shard=6),
     Sub("perm_exhaustive", run_exhaustive, replay, quick=1, thorough=1,
         shards=14, sweep=True),
+    Sub("huge_shards", run_huge, replay, quick=1, thorough=2, shards=1),
 ]
